@@ -48,7 +48,7 @@ def rfc_wild(pat, name, ci=False):
                 if k == len(name) or name[k] == DELIM:
                     return False
                 k += 1
-        if j < len(name) and (p == name[j] or (ci and p.upper() == name[j].upper())):
+        if j < len(name) and (p == name[j] or (ci and p.isascii() and name[j].isascii() and p.upper() == name[j].upper())):
             return go(i + 1, j + 1)
         return False
     return go(0, 0)
